@@ -10,12 +10,27 @@
 //!
 //! The oracle runs only at quiescence (all threads joined), through public
 //! calls only, and states the property text clause by clause (see `oracle`).
+//!
+//! Besides the single-item calls the programs use the public bulk and derived
+//! mutators (`batch_create_nodes`, `batch_create_edges`, `batch_delete_nodes`,
+//! `batch_delete_edges`, `batch_update_nodes`, `add_label`, `remove_label`);
+//! a bulk call is one client operation whose items are accounted like the
+//! single-item calls with the interval of the whole call.
+//!
+//! Every twentieth case is a *high-degree sequential* case: one client thread,
+//! a hub node with 45–130 edges (undirected edges, self-loops and parallel
+//! edges included; up to 131 nodes), then `delete_node` / `delete_edge` /
+//! bulk deletes on it. With 100 or more edges `delete_node` takes its rayon
+//! branch and `batch_create_nodes` does for 100 or more nodes: the rayon
+//! workers are real, unscheduled threads without a simulation context, so
+//! nothing they do is logged — the event log holds only what the client thread
+//! was told (results), and the verdict comes from the quiescent dump.
 
 use crate::ctx::RunCtx;
 use crate::driver::{drop_chunks, RunOut, Scenario, Tier, Violation};
 use crate::rng::Rng;
 use crate::sched::{self, STAY};
-use graph_engine::{Direction, Edge, GraphEngine, PropertyValue};
+use graph_engine::{Direction, Edge, EdgeInput, GraphEngine, NodeInput, PropertyValue};
 use serde::{Deserialize, Serialize};
 use serde_json::{json, Value};
 use std::collections::{BTreeMap, BTreeSet, HashMap, VecDeque};
@@ -37,6 +52,33 @@ pub enum Op {
     DeleteNode { n: u8 },
     UpdateNode { n: u8, v: u8, relabel: bool },
     UpdateEdge { e: u8, v: u8 },
+    /// `batch_create_nodes` with `count` nodes (>= 100 takes the rayon branch; sequential cases only)
+    BatchCreateNodes { count: u8 },
+    /// `batch_create_edges`
+    BatchCreateEdges { edges: Vec<EdgeSpec> },
+    /// `batch_delete_nodes` (the same node may be named twice)
+    BatchDeleteNodes { ns: Vec<u8> },
+    /// `batch_delete_edges`
+    BatchDeleteEdges { es: Vec<u8> },
+    /// `batch_update_nodes`
+    BatchUpdateNodes { items: Vec<NodeUpd> },
+    AddLabel { n: u8, l: u8 },
+    RemoveLabel { n: u8, l: u8 },
+}
+
+#[derive(Serialize, Deserialize, Clone, Debug, PartialEq)]
+pub struct EdgeSpec {
+    pub a: u8,
+    pub b: u8,
+    pub directed: bool,
+    pub ty: u8,
+}
+
+#[derive(Serialize, Deserialize, Clone, Debug, PartialEq)]
+pub struct NodeUpd {
+    pub n: u8,
+    pub v: u8,
+    pub relabel: bool,
 }
 
 #[derive(Serialize, Deserialize, Clone, Debug)]
@@ -96,7 +138,28 @@ enum Cur {
     CreateEdge { from: usize, to: usize, adds: usize },
     DeleteEdge { from: usize, to: usize, directed: bool, removes: usize },
     DeleteNode,
+    /// batch_create_edges: (from, to, directed) per edge, list updates done so far
+    BatchCreate { edges: Vec<(usize, usize, bool)>, adds: usize },
     Other,
+}
+
+/// which adjacency list the `adds`-th list update of a create_edge / batch_create_edges touches:
+/// out(from), in(to) and for undirected edges out(to), in(from), in this order, edge after edge
+fn add_window_key(edges: &[(usize, usize, bool)], adds: usize) -> String {
+    let mut left = adds;
+    for (from, to, directed) in edges {
+        let slots = if *directed { 2 } else { 4 };
+        if left < slots {
+            return match left {
+                0 => format!("out(N{from})"),
+                1 => format!("in(N{to})"),
+                2 => format!("out(N{to})"),
+                _ => format!("in(N{from})"),
+            };
+        }
+        left -= slots;
+    }
+    "?".to_string()
 }
 
 struct Shared {
@@ -157,6 +220,40 @@ impl Shared {
         self.clock += 1;
         self.clock
     }
+    /// What the client-side registry says about node `k` right now (probes only):
+    /// (distinct live edges touching it, entries they occupy in its two lists,
+    /// some edge is in both of its lists — undirected or a self-loop).
+    fn hub_info(&self, k: usize) -> (usize, usize, bool) {
+        let (mut distinct, mut entries, mut both) = (0, 0, false);
+        for e in &self.edges {
+            if e.deleted_ok || self.nodes[e.from].deleted_ok || self.nodes[e.to].deleted_ok {
+                continue;
+            }
+            if e.from == k || e.to == k {
+                distinct += 1;
+                if e.from == e.to || !e.directed {
+                    entries += 2;
+                    both = true;
+                } else {
+                    entries += 1;
+                }
+            }
+        }
+        (distinct, entries, both)
+    }
+}
+
+fn hub_probes(info: (usize, usize, bool), ctx: &RunCtx) {
+    let (distinct, entries, both) = info;
+    if distinct >= 100 {
+        ctx.probe("delete_node_with_100_or_more_edges");
+    }
+    if entries >= 100 {
+        ctx.probe("delete_node_with_100_or_more_list_entries");
+        if both {
+            ctx.probe("delete_node_with_100_or_more_list_entries_and_an_edge_in_both_lists");
+        }
+    }
 }
 
 fn props(v: u8) -> HashMap<String, PropertyValue> {
@@ -174,6 +271,12 @@ fn short_err(e: &graph_engine::GraphError) -> &'static str {
         G::PartialDeletionError { .. } => "PartialDeletionError",
         G::CorruptedEdge { .. } => "CorruptedEdge",
         G::ConstraintViolation { .. } => "ConstraintViolation",
+        G::BatchValidationError { cause, .. } => match **cause {
+            G::NodeNotFound(_) => "BatchValidationError(NodeNotFound)",
+            G::EdgeNotFound(_) => "BatchValidationError(EdgeNotFound)",
+            _ => "BatchValidationError",
+        },
+        G::BatchCreationError { .. } => "BatchCreationError",
         _ => "OtherError",
     }
 }
@@ -256,6 +359,9 @@ fn exec_op(op: &Op, t: usize, eng: &GraphEngine, sh: &Mutex<Shared>, ctx: &RunCt
                 };
                 let start = g.tick();
                 let r = g.edges[k].clone();
+                if g.hub_info(r.from).1 >= 100 || g.hub_info(r.to).1 >= 100 {
+                    ctx.probe("delete_edge_at_node_with_100_or_more_list_entries");
+                }
                 (k, r.id, r.from, r.to, r.directed, start)
             };
             set_cur(Some(Cur::DeleteEdge { from: fi, to: ti, directed, removes: 0 }));
@@ -281,6 +387,7 @@ fn exec_op(op: &Op, t: usize, eng: &GraphEngine, sh: &Mutex<Shared>, ctx: &RunCt
                     return;
                 };
                 let start = g.tick();
+                hub_probes(g.hub_info(k), ctx);
                 (k, g.nodes[k].id, start)
             };
             set_cur(Some(Cur::DeleteNode));
@@ -332,6 +439,243 @@ fn exec_op(op: &Op, t: usize, eng: &GraphEngine, sh: &Mutex<Shared>, ctx: &RunCt
                 ctx.event(&format!("{who} update_edge E{k} = {}", r.map(|()| "Ok").unwrap_or_else(|e| short_err(&e))));
             });
         },
+        Op::BatchCreateNodes { count } => {
+            if *count == 0 {
+                return;
+            }
+            set_cur(Some(Cur::Other));
+            ctx.fp("bcn");
+            if *count >= 100 {
+                ctx.probe("batch_create_nodes_100_or_more");
+            }
+            guarded(&mut || {
+                let inputs: Vec<NodeInput> = (0..*count).map(|_| NodeInput::new(vec!["N".to_string()], props(0))).collect();
+                match eng.batch_create_nodes(inputs) {
+                    Ok(res) => {
+                        let mut g = lock(sh);
+                        let first = g.nodes.len();
+                        for id in &res.created_ids {
+                            g.nodes.push(NodeRec { id: *id, deleted_ok: false });
+                        }
+                        let last = g.nodes.len();
+                        drop(g);
+                        ctx.probe("batch_create_nodes_ok");
+                        ctx.event(&format!("{who} batch_create_nodes({count}) = Ok(N{first}..N{last})"));
+                    },
+                    Err(e) => ctx.event(&format!("{who} batch_create_nodes({count}) = Err({})", short_err(&e))),
+                }
+            });
+        },
+        Op::BatchCreateEdges { edges } => {
+            // (from, to, directed, type) with registry indices; operands with nothing to pick are dropped
+            let (specs, inputs, start) = {
+                let mut g = lock(sh);
+                let mut specs: Vec<(usize, usize, bool)> = Vec::new();
+                let mut inputs: Vec<EdgeInput> = Vec::new();
+                for s in edges {
+                    let (Some(fi), Some(ti)) = (g.pick_node(s.a), g.pick_node(s.b)) else {
+                        continue;
+                    };
+                    specs.push((fi, ti, s.directed));
+                    inputs.push(EdgeInput::new(g.nodes[fi].id, g.nodes[ti].id, format!("T{}", s.ty % 2), props(0), s.directed));
+                }
+                if specs.is_empty() {
+                    return;
+                }
+                let start = g.tick();
+                (specs, inputs, start)
+            };
+            set_cur(Some(Cur::BatchCreate { edges: specs.clone(), adds: 0 }));
+            let shown = specs.iter().map(|(f, t, d)| format!("N{f}{}N{t}", if *d { "->" } else { "--" })).collect::<Vec<_>>().join(",");
+            ctx.event(&format!("{who} batch_create_edges [{shown}] begin"));
+            let mut inputs = Some(inputs);
+            guarded(&mut || {
+                let r = eng.batch_create_edges(inputs.take().unwrap_or_default());
+                let mut g = lock(sh);
+                let end = g.tick();
+                match r {
+                    Ok(res) => {
+                        let first = g.edges.len();
+                        for ((fi, ti, directed), id) in specs.iter().zip(res.created_ids.iter()) {
+                            g.edges.push(EdgeRec { id: *id, from: *fi, to: *ti, directed: *directed, c_start: start, deleted_ok: false });
+                            let k = g.edges.len() - 1;
+                            g.calls.push(Call { kind: "batch_create_edges", target: Target::Edge(k), ends: Some((*fi, *ti)), start, end, ok: true });
+                        }
+                        let last = g.edges.len();
+                        drop(g);
+                        ctx.fp("bce+");
+                        ctx.probe("batch_create_edges_ok");
+                        if res.created_ids.len() != specs.len() {
+                            ctx.probe("batch_create_edges_id_count_differs");
+                        }
+                        ctx.event(&format!("{who} batch_create_edges [{shown}] = Ok(E{first}..E{last})"));
+                    },
+                    Err(e) => {
+                        for (fi, ti, _) in &specs {
+                            g.calls.push(Call { kind: "batch_create_edges", target: Target::Edge(usize::MAX), ends: Some((*fi, *ti)), start, end, ok: false });
+                        }
+                        drop(g);
+                        ctx.fp("bce-");
+                        ctx.event(&format!("{who} batch_create_edges [{shown}] = Err({})", short_err(&e)));
+                    },
+                }
+            });
+        },
+        Op::BatchDeleteNodes { ns } => {
+            let (ks, ids, start) = {
+                let mut g = lock(sh);
+                let ks: Vec<usize> = ns.iter().filter_map(|x| g.pick_node(*x)).collect();
+                if ks.is_empty() {
+                    return;
+                }
+                let ids: Vec<u64> = ks.iter().map(|k| g.nodes[*k].id).collect();
+                let start = g.tick();
+                for k in &ks {
+                    hub_probes(g.hub_info(*k), ctx);
+                }
+                (ks, ids, start)
+            };
+            set_cur(Some(Cur::DeleteNode));
+            let shown = ks.iter().map(|k| format!("N{k}")).collect::<Vec<_>>().join(",");
+            ctx.event(&format!("{who} batch_delete_nodes [{shown}] begin"));
+            guarded(&mut || {
+                let r = eng.batch_delete_nodes(ids.clone());
+                let mut g = lock(sh);
+                let end = g.tick();
+                match r {
+                    Ok(res) => {
+                        let mut done = Vec::new();
+                        for (k, id) in ks.iter().zip(ids.iter()) {
+                            let ok = res.deleted_ids.contains(id);
+                            if ok {
+                                g.nodes[*k].deleted_ok = true;
+                                done.push(format!("N{k}"));
+                            }
+                            g.calls.push(Call { kind: "delete_node", target: Target::Node(*k), ends: None, start, end, ok });
+                        }
+                        drop(g);
+                        ctx.fp(if res.failed.is_empty() { "bdn+" } else { "bdn~" });
+                        ctx.probe("batch_delete_nodes_returned");
+                        ctx.event(&format!("{who} batch_delete_nodes [{shown}] = deleted [{}], {} failed", done.join(","), res.failed.len()));
+                    },
+                    Err(e) => {
+                        // un-acknowledged: any of the nodes may or may not have been taken apart
+                        for k in &ks {
+                            g.calls.push(Call { kind: "delete_node", target: Target::Node(*k), ends: None, start, end, ok: false });
+                        }
+                        drop(g);
+                        ctx.fp("bdn-");
+                        ctx.event(&format!("{who} batch_delete_nodes [{shown}] = Err({})", short_err(&e)));
+                    },
+                }
+            });
+        },
+        Op::BatchDeleteEdges { es } => {
+            let (ks, ids, ends, start) = {
+                let mut g = lock(sh);
+                let ks: Vec<usize> = es.iter().filter_map(|x| g.pick_edge(*x)).collect();
+                if ks.is_empty() {
+                    return;
+                }
+                let ids: Vec<u64> = ks.iter().map(|k| g.edges[*k].id).collect();
+                let ends: Vec<(usize, usize)> = ks.iter().map(|k| (g.edges[*k].from, g.edges[*k].to)).collect();
+                let start = g.tick();
+                (ks, ids, ends, start)
+            };
+            set_cur(Some(Cur::Other));
+            let shown = ks.iter().map(|k| format!("E{k}")).collect::<Vec<_>>().join(",");
+            ctx.event(&format!("{who} batch_delete_edges [{shown}] begin"));
+            guarded(&mut || {
+                let r = eng.batch_delete_edges(ids.clone());
+                let mut g = lock(sh);
+                let end = g.tick();
+                match r {
+                    Ok(res) => {
+                        let mut done = Vec::new();
+                        for ((k, id), en) in ks.iter().zip(ids.iter()).zip(ends.iter()) {
+                            let ok = res.deleted_ids.contains(id);
+                            if ok {
+                                g.edges[*k].deleted_ok = true;
+                                done.push(format!("E{k}"));
+                            }
+                            g.calls.push(Call { kind: "delete_edge", target: Target::Edge(*k), ends: Some(*en), start, end, ok });
+                        }
+                        drop(g);
+                        ctx.fp(if res.failed.is_empty() { "bde+" } else { "bde~" });
+                        ctx.probe("batch_delete_edges_returned");
+                        ctx.event(&format!("{who} batch_delete_edges [{shown}] = deleted [{}], {} failed", done.join(","), res.failed.len()));
+                    },
+                    Err(e) => {
+                        for (k, en) in ks.iter().zip(ends.iter()) {
+                            g.calls.push(Call { kind: "delete_edge", target: Target::Edge(*k), ends: Some(*en), start, end, ok: false });
+                        }
+                        drop(g);
+                        ctx.fp("bde-");
+                        ctx.event(&format!("{who} batch_delete_edges [{shown}] = Err({})", short_err(&e)));
+                    },
+                }
+            });
+        },
+        Op::BatchUpdateNodes { items } => {
+            let (ks, ups) = {
+                let g = lock(sh);
+                let mut ks = Vec::new();
+                let mut ups: Vec<(u64, Option<Vec<String>>, HashMap<String, PropertyValue>)> = Vec::new();
+                for it in items {
+                    let Some(k) = g.pick_node(it.n) else {
+                        continue;
+                    };
+                    ks.push(k);
+                    ups.push((g.nodes[k].id, if it.relabel { Some(vec![format!("L{}", it.v % 3)]) } else { None }, props(it.v)));
+                }
+                if ks.is_empty() {
+                    return;
+                }
+                (ks, ups)
+            };
+            set_cur(Some(Cur::Other));
+            let shown = ks.iter().map(|k| format!("N{k}")).collect::<Vec<_>>().join(",");
+            ctx.event(&format!("{who} batch_update_nodes [{shown}] begin"));
+            let mut ups = Some(ups);
+            guarded(&mut || {
+                let r = eng.batch_update_nodes(ups.take().unwrap_or_default());
+                ctx.fp(if r.is_ok() { "bun+" } else { "bun-" });
+                match r {
+                    Ok(n) => {
+                        ctx.probe("batch_update_nodes_ok");
+                        ctx.event(&format!("{who} batch_update_nodes [{shown}] = Ok({n})"));
+                    },
+                    Err(e) => ctx.event(&format!("{who} batch_update_nodes [{shown}] = Err({})", short_err(&e))),
+                }
+            });
+        },
+        Op::AddLabel { n, l } | Op::RemoveLabel { n, l } => {
+            let (k, id) = {
+                let g = lock(sh);
+                let Some(k) = g.pick_node(*n) else {
+                    return;
+                };
+                (k, g.nodes[k].id)
+            };
+            let add = matches!(op, Op::AddLabel { .. });
+            let name = if add { "add_label" } else { "remove_label" };
+            set_cur(Some(Cur::Other));
+            ctx.event(&format!("{who} {name} N{k} L{} begin", l % 3));
+            guarded(&mut || {
+                let label = format!("L{}", l % 3);
+                let r = if add { eng.add_label(id, &label) } else { eng.remove_label(id, &label) };
+                ctx.fp(match (add, r.is_ok()) {
+                    (true, true) => "al+",
+                    (true, false) => "al-",
+                    (false, true) => "rl+",
+                    (false, false) => "rl-",
+                });
+                if r.is_ok() {
+                    ctx.probe("label_op_ok");
+                }
+                ctx.event(&format!("{who} {name} N{k} = {}", r.map(|()| "Ok").unwrap_or_else(|e| short_err(&e))));
+            });
+        },
     }
     set_cur(None);
 }
@@ -359,6 +703,11 @@ fn observe(site: &'static str, t: usize, sh: &Mutex<Shared>, ctx: &RunCtx) {
                     2 => format!("out(N{to})"),
                     _ => format!("in(N{from})"),
                 };
+                *adds += 1;
+                k
+            },
+            Some(Cur::BatchCreate { edges, adds }) if is_add => {
+                let k = add_window_key(edges, *adds);
                 *adds += 1;
                 k
             },
@@ -411,6 +760,7 @@ fn observe(site: &'static str, t: usize, sh: &Mutex<Shared>, ctx: &RunCtx) {
                 2 => format!("out(N{to})"),
                 _ => format!("in(N{from})"),
             },
+            Some(Cur::BatchCreate { edges, adds }) => add_window_key(edges, *adds),
             Some(Cur::DeleteEdge { from, to, directed, removes }) => match (*removes, *directed) {
                 (0, _) => format!("out(N{from})"),
                 (1, _) => format!("in(N{to})"),
@@ -667,7 +1017,30 @@ fn oracle(eng: &GraphEngine, sh: &Shared, ctx: &RunCtx) -> Option<Violation> {
 
 // ---------------------------------------------------------------- generation
 
-fn gen_op(rng: &mut Rng, w: &[u64; 6], hub_bias: u64) -> Op {
+/// number of operation kinds `gen_op` draws from (index = position in a weight vector):
+/// create_node, create_edge, delete_edge, delete_node, update_node, update_edge,
+/// batch_create_nodes, batch_create_edges, batch_delete_nodes, batch_delete_edges,
+/// batch_update_nodes, add_label, remove_label
+const KINDS: usize = 13;
+
+fn operand(rng: &mut Rng) -> u8 {
+    if rng.chance(1, 8) {
+        ANY + rng.below(8) as u8
+    } else {
+        rng.below(8) as u8
+    }
+}
+
+fn gen_edge(rng: &mut Rng, hub_bias: u64) -> EdgeSpec {
+    let a = operand(rng);
+    // many edges onto one hub: node #0 of the live ones
+    let b = if rng.below(100) < hub_bias { 0 } else { operand(rng) };
+    let (a, b) = if rng.chance(1, 2) { (a, b) } else { (b, a) };
+    let b = if rng.chance(1, 10) { a } else { b }; // self-loop
+    EdgeSpec { a, b, directed: rng.chance(3, 5), ty: rng.below(2) as u8 }
+}
+
+fn gen_op(rng: &mut Rng, w: &[u64; KINDS], hub_bias: u64) -> Op {
     let total: u64 = w.iter().sum();
     let mut r = rng.below(total);
     let mut kind = 0;
@@ -678,28 +1051,122 @@ fn gen_op(rng: &mut Rng, w: &[u64; 6], hub_bias: u64) -> Op {
         }
         r -= x;
     }
-    let operand = |rng: &mut Rng| -> u8 {
-        if rng.chance(1, 8) {
-            ANY + rng.below(8) as u8
+    let hub_or = |rng: &mut Rng| -> u8 {
+        if rng.below(100) < hub_bias {
+            0
         } else {
-            rng.below(8) as u8
+            operand(rng)
         }
     };
     match kind {
         0 => Op::CreateNode,
         1 => {
-            let a = operand(rng);
-            // many edges onto one hub: node #0 of the live ones
-            let b = if rng.below(100) < hub_bias { 0 } else { operand(rng) };
-            let (a, b) = if rng.chance(1, 2) { (a, b) } else { (b, a) };
-            let b = if rng.chance(1, 10) { a } else { b }; // self-loop
-            Op::CreateEdge { a, b, directed: rng.chance(3, 5), ty: rng.below(2) as u8 }
+            let e = gen_edge(rng, hub_bias);
+            Op::CreateEdge { a: e.a, b: e.b, directed: e.directed, ty: e.ty }
         },
         2 => Op::DeleteEdge { e: operand(rng) },
-        3 => Op::DeleteNode { n: if rng.below(100) < hub_bias { 0 } else { operand(rng) } },
+        3 => Op::DeleteNode { n: hub_or(rng) },
         4 => Op::UpdateNode { n: operand(rng), v: rng.below(6) as u8, relabel: rng.chance(1, 3) },
-        _ => Op::UpdateEdge { e: operand(rng), v: rng.below(6) as u8 },
+        5 => Op::UpdateEdge { e: operand(rng), v: rng.below(6) as u8 },
+        6 => Op::BatchCreateNodes { count: rng.range(1, 3) as u8 },
+        7 => Op::BatchCreateEdges { edges: (0..rng.range(2, 4)).map(|_| gen_edge(rng, hub_bias)).collect() },
+        8 => Op::BatchDeleteNodes { ns: (0..rng.range(1, 3)).map(|_| hub_or(rng)).collect() },
+        9 => Op::BatchDeleteEdges { es: (0..rng.range(1, 4)).map(|_| operand(rng)).collect() },
+        10 => Op::BatchUpdateNodes { items: (0..rng.range(1, 3)).map(|_| NodeUpd { n: hub_or(rng), v: rng.below(6) as u8, relabel: rng.chance(1, 3) }).collect() },
+        11 => Op::AddLabel { n: hub_or(rng), l: rng.below(3) as u8 },
+        _ => Op::RemoveLabel { n: hub_or(rng), l: rng.below(3) as u8 },
     }
+}
+
+/// how many schedule picks an operation is worth (a bulk call has yield sites per item)
+fn op_weight(op: &Op) -> usize {
+    match op {
+        Op::BatchCreateEdges { edges } => edges.len().max(1),
+        Op::BatchDeleteNodes { ns } => ns.len().max(1),
+        Op::BatchDeleteEdges { es } => es.len().max(1),
+        Op::BatchUpdateNodes { items } => items.len().max(1),
+        _ => 1,
+    }
+}
+
+const W_MIXED: [u64; KINDS] = [2, 6, 3, 2, 1, 1, 0, 0, 0, 0, 0, 0, 0];
+const W_MIXED_ALL: [u64; KINDS] = [2, 6, 3, 2, 1, 1, 1, 3, 1, 2, 1, 1, 1];
+
+/// The high-degree sequential case: a hub (node #0) with 45-130 edges to 0-110 other
+/// nodes — directed and undirected, self-loops, parallel edges (few spokes), some edges
+/// between spokes —, created one by one and/or by bulk calls, then one client thread
+/// that deletes edges and the hub (single and bulk deletes) and goes on working.
+fn gen_hub_case(rng: &mut Rng) -> Case {
+    let spokes = *rng.pick(&[0u64, 1, 2, 5, 12, 40, 110]);
+    let nodes = spokes + 1;
+    let mut setup = Vec::new();
+    if rng.chance(1, 2) {
+        setup.push(Op::BatchCreateNodes { count: nodes as u8 });
+    } else {
+        for _ in 0..nodes {
+            setup.push(Op::CreateNode);
+        }
+    }
+    let m = if rng.chance(1, 2) { rng.range(100, 130) } else { rng.range(45, 110) };
+    let undirected_pct = *rng.pick(&[0u64, 5, 30, 100]);
+    let loop_pct = if spokes == 0 { 100 } else { *rng.pick(&[0u64, 0, 3, 20]) };
+    let mut specs = Vec::new();
+    for _ in 0..m {
+        let spoke = if spokes == 0 { 0 } else { 1 + rng.below(spokes) as u8 };
+        let (mut a, mut b) = (0u8, spoke);
+        if rng.below(100) < loop_pct {
+            b = 0;
+        } else if spokes >= 2 && rng.chance(1, 12) {
+            a = 1 + rng.below(spokes) as u8; // an edge between two spokes
+        }
+        if rng.chance(1, 2) {
+            std::mem::swap(&mut a, &mut b);
+        }
+        specs.push(EdgeSpec { a, b, directed: rng.below(100) >= undirected_pct, ty: rng.below(2) as u8 });
+    }
+    let single = |e: &EdgeSpec| Op::CreateEdge { a: e.a, b: e.b, directed: e.directed, ty: e.ty };
+    match rng.below(3) {
+        0 => setup.extend(specs.iter().map(single)),
+        1 => setup.push(Op::BatchCreateEdges { edges: specs }),
+        _ => {
+            let mut rest = specs.as_slice();
+            while !rest.is_empty() {
+                let n = (rng.range(1, 40) as usize).min(rest.len());
+                if n == 1 || rng.chance(1, 3) {
+                    setup.extend(rest[..n].iter().map(single));
+                } else {
+                    setup.push(Op::BatchCreateEdges { edges: rest[..n].to_vec() });
+                }
+                rest = &rest[n..];
+            }
+        },
+    }
+    let mut prog = Vec::new();
+    // edge deletions, updates, label changes and more edges at the hub first
+    for _ in 0..rng.below(5) {
+        prog.push(gen_op(rng, &[0, 3, 4, 0, 1, 2, 0, 1, 0, 1, 1, 1, 1], 60));
+    }
+    match rng.below(5) {
+        0 => prog.push(Op::BatchDeleteNodes { ns: vec![0, operand(rng)] }),
+        1 => {
+            prog.push(Op::BatchDeleteEdges { es: (0..rng.range(10, 60)).map(|_| rng.below(u64::from(ANY)) as u8).collect() });
+            prog.push(Op::DeleteNode { n: 0 });
+        },
+        2 => {
+            // a spoke first (its edges leave the hub's lists one by one), then the hub
+            prog.push(Op::DeleteNode { n: 1 + rng.below(spokes.max(1)) as u8 });
+            prog.push(Op::DeleteNode { n: 0 });
+        },
+        _ => prog.push(Op::DeleteNode { n: 0 }),
+    }
+    for _ in 0..rng.below(7) {
+        prog.push(gen_op(rng, &W_MIXED_ALL, 40));
+    }
+    if rng.chance(1, 3) {
+        // the hub once more: gone, or still there if the first attempt reported an error
+        prog.push(Op::DeleteNode { n: ANY });
+    }
+    Case { setup, threads: vec![prog], schedule: Vec::new() }
 }
 
 impl Scenario for C05 {
@@ -722,12 +1189,17 @@ impl Scenario for C05 {
 
     fn generate(&self, rng: &mut Rng, _tier: Tier, index: u64) -> Case {
         // weights: create_node, create_edge, delete_edge, delete_node, update_node, update_edge
-        let profiles: [([u64; 6], u64); 5] = [
-            ([1, 12, 1, 0, 0, 0], 85), // many creators onto one hub
-            ([2, 6, 3, 2, 1, 1], 40),  // mixed
-            ([0, 5, 3, 5, 0, 0], 70),  // node deletion against edge creation/deletion on the hub
-            ([0, 2, 4, 3, 2, 5], 50),  // updates against deletions
-            ([0, 3, 8, 2, 0, 0], 80),  // many deleters on one hub's lists
+        // then: batch_create_nodes, batch_create_edges, batch_delete_nodes, batch_delete_edges,
+        // batch_update_nodes, add_label, remove_label
+        let profiles: [([u64; KINDS], u64); 8] = [
+            ([1, 12, 1, 0, 0, 0, 0, 0, 0, 0, 0, 0, 0], 85), // many creators onto one hub
+            ([2, 6, 3, 2, 1, 1, 0, 0, 0, 0, 0, 0, 0], 40),  // mixed
+            ([0, 5, 3, 5, 0, 0, 0, 0, 0, 0, 0, 0, 0], 70),  // node deletion against edge creation/deletion on the hub
+            ([0, 2, 4, 3, 2, 5, 0, 0, 0, 0, 0, 0, 0], 50),  // updates against deletions
+            ([0, 3, 8, 2, 0, 0, 0, 0, 0, 0, 0, 0, 0], 80),  // many deleters on one hub's lists
+            ([0, 1, 1, 4, 0, 0, 0, 6, 2, 1, 0, 0, 0], 70),  // bulk edge creation against node deletion on the hub
+            ([2, 6, 3, 2, 1, 1, 1, 3, 1, 2, 1, 1, 1], 40),  // mixed, every mutator
+            ([0, 1, 1, 3, 2, 1, 1, 1, 2, 0, 3, 4, 3], 50),  // label and record rewrites against deletions
         ];
         let (w, hub) = *rng.pick(&profiles);
         // setup: some nodes, some edges (so that deletes and updates have something to act on)
@@ -736,12 +1208,17 @@ impl Scenario for C05 {
             setup.push(Op::CreateNode);
         }
         for _ in 0..rng.below(7) {
-            setup.push(gen_op(rng, &[0, 1, 0, 0, 0, 0], hub));
+            setup.push(gen_op(rng, &[0, 1, 0, 0, 0, 0, 0, 0, 0, 0, 0, 0, 0], hub));
+        }
+        if index % 20 == 10 {
+            // the high-degree sequential configuration
+            return gen_hub_case(rng);
         }
         if index % 5 == 0 {
             // the sequential configuration: one thread, no switch inside an operation matters
             let n = rng.range(6, 28) as usize;
-            let prog = (0..n).map(|_| gen_op(rng, &[2, 6, 3, 2, 1, 1], 40)).collect();
+            let wts = if rng.chance(1, 2) { W_MIXED } else { W_MIXED_ALL };
+            let prog = (0..n).map(|_| gen_op(rng, &wts, 40)).collect();
             return Case { setup, threads: vec![prog], schedule: Vec::new() };
         }
         let nthreads = match rng.below(10) {
@@ -756,11 +1233,12 @@ impl Scenario for C05 {
         let mut total = 0;
         for _ in 0..nthreads {
             let n = rng.range(1, max_ops) as usize;
-            total += n;
-            threads.push((0..n).map(|_| gen_op(rng, &w, hub)).collect());
+            let prog: Vec<Op> = (0..n).map(|_| gen_op(rng, &w, hub)).collect();
+            total += prog.iter().map(op_weight).sum::<usize>();
+            threads.push(prog);
         }
         let stick = *rng.pick(&[0u64, 40, 70, 85, 93, 97]);
-        let schedule = sched::gen_schedule(rng, (total * 10 + 16).min(400), stick);
+        let schedule = sched::gen_schedule(rng, (total * 10 + 16).min(500), stick);
         Case { setup, threads, schedule }
     }
 
@@ -823,6 +1301,10 @@ impl Scenario for C05 {
                 s if s.starts_with("graph.delete_node.") => Some("preempted_inside_delete_node"),
                 s if s.starts_with("graph.delete_edge.") => Some("preempted_inside_delete_edge"),
                 s if s.starts_with("graph.update_") => Some("preempted_inside_update_rmw"),
+                s if s.starts_with("graph.batch_create_edges.") => Some("preempted_inside_batch_create_edges"),
+                s if s.starts_with("graph.batch_delete_") => Some("preempted_between_batch_delete_items"),
+                s if s.starts_with("graph.batch_update_nodes.") => Some("preempted_inside_batch_update_nodes"),
+                s if s.starts_with("graph.add_label.") || s.starts_with("graph.remove_label.") => Some("preempted_inside_label_rmw"),
                 _ => None,
             };
             if let Some(p) = p {
@@ -869,6 +1351,7 @@ impl Scenario for C05 {
                 if touches && overlap(d, c) {
                     match c.kind {
                         "create_edge" => ctx.probe("delete_node_concurrent_with_create_edge_on_node"),
+                        "batch_create_edges" => ctx.probe("delete_node_concurrent_with_batch_create_edges_on_node"),
                         "delete_edge" => ctx.probe("delete_node_concurrent_with_delete_edge_on_node"),
                         _ => {},
                     }
@@ -933,9 +1416,54 @@ impl Scenario for C05 {
                 v.push(c);
             }
         }
+        // smaller bulk calls
+        let smaller = |op: &Op| -> Vec<Op> {
+            match op {
+                Op::BatchCreateNodes { count } if *count > 1 => {
+                    let mut c = vec![count / 2, count - 1];
+                    c.dedup();
+                    c.into_iter().map(|count| Op::BatchCreateNodes { count }).collect()
+                },
+                Op::BatchCreateEdges { edges } if edges.len() > 1 => drop_chunks(edges).into_iter().map(|edges| Op::BatchCreateEdges { edges }).collect(),
+                Op::BatchDeleteNodes { ns } if ns.len() > 1 => drop_chunks(ns).into_iter().map(|ns| Op::BatchDeleteNodes { ns }).collect(),
+                Op::BatchDeleteEdges { es } if es.len() > 1 => drop_chunks(es).into_iter().map(|es| Op::BatchDeleteEdges { es }).collect(),
+                Op::BatchUpdateNodes { items } if items.len() > 1 => drop_chunks(items).into_iter().map(|items| Op::BatchUpdateNodes { items }).collect(),
+                _ => Vec::new(),
+            }
+        };
+        for (i, prog) in case.threads.iter().enumerate() {
+            for (j, op) in prog.iter().enumerate() {
+                for s in smaller(op) {
+                    let mut c = case.clone();
+                    c.threads[i][j] = s;
+                    v.push(c);
+                }
+            }
+        }
+        for (j, op) in case.setup.iter().enumerate() {
+            for s in smaller(op) {
+                let mut c = case.clone();
+                c.setup[j] = s;
+                v.push(c);
+            }
+        }
         // simpler operations
         let simpler = |op: &Op| -> Option<Op> {
             match op {
+                Op::BatchCreateEdges { edges } if edges.iter().any(|e| !e.directed) => {
+                    // the first undirected edge of the batch becomes directed
+                    let mut edges = edges.clone();
+                    if let Some(e) = edges.iter_mut().find(|e| !e.directed) {
+                        e.directed = true;
+                    }
+                    Some(Op::BatchCreateEdges { edges })
+                },
+                Op::BatchCreateEdges { edges } if edges.len() == 1 => {
+                    let e = &edges[0];
+                    Some(Op::CreateEdge { a: e.a, b: e.b, directed: e.directed, ty: e.ty })
+                },
+                Op::BatchDeleteNodes { ns } if ns.len() == 1 => Some(Op::DeleteNode { n: ns[0] }),
+                Op::BatchDeleteEdges { es } if es.len() == 1 => Some(Op::DeleteEdge { e: es[0] }),
                 Op::CreateEdge { a, b, directed: false, ty } => Some(Op::CreateEdge { a: *a, b: *b, directed: true, ty: *ty }),
                 Op::CreateEdge { a, b, directed, ty } if *ty != 0 => Some(Op::CreateEdge { a: *a, b: *b, directed: *directed, ty: 0 }),
                 Op::UpdateNode { n, v, relabel: true } => Some(Op::UpdateNode { n: *n, v: *v, relabel: false }),
@@ -970,22 +1498,39 @@ impl Scenario for C05 {
             "undirected_edge",
             "self_loop",
             "parallel_edges",
+            // bulk and derived mutators
+            "batch_create_edges_ok",
+            "batch_create_nodes_ok",
+            "batch_delete_nodes_returned",
+            "batch_delete_edges_returned",
+            "batch_update_nodes_ok",
+            "label_op_ok",
+            "preempted_inside_batch_create_edges",
+            "delete_node_concurrent_with_batch_create_edges_on_node",
+            // high-degree sequential cases (rayon branches of delete_node / batch_create_nodes)
+            "delete_node_with_100_or_more_edges",
+            "delete_node_with_100_or_more_list_entries_and_an_edge_in_both_lists",
+            "delete_edge_at_node_with_100_or_more_list_entries",
+            "batch_create_nodes_100_or_more",
         ]
     }
     fn rule(&self) -> String {
-        "A case is a sequential setup program (2-5 nodes, 0-6 edges), 1-8 thread programs of <=5 operations each (create_node, create_edge directed/undirected incl. self-loops, parallel edges and many edges onto one hub, delete_edge, delete_node, update_node, update_edge; operands resolved against the nodes/edges created so far at execution time) and an explicit baton schedule that switches threads between operations and at the hook sites inside graph_engine (adjacency-list read-modify-write windows, after the edge-record put, between the steps of delete_edge/delete_node/update_*). Every fifth case is the sequential configuration (one thread, 6-28 operations). The oracle runs once, at quiescence. Non-trivial: at least one create_edge succeeded and, for >1 thread, at least one thread switch happened. Distinct: hash of (thread count, sequence of executed operation kinds with success/failure in execution order, number of switches capped at 12).".into()
+        "A case is a sequential setup program (2-5 nodes, 0-6 edges), 1-8 thread programs of <=5 operations each (create_node, create_edge directed/undirected incl. self-loops, parallel edges and many edges onto one hub, delete_edge, delete_node, update_node, update_edge, and the bulk/derived mutators batch_create_nodes (1-3), batch_create_edges (2-4 edges), batch_delete_nodes (1-3, repeats allowed), batch_delete_edges (1-4), batch_update_nodes (1-3), add_label, remove_label; operands resolved against the nodes/edges created so far at execution time) and an explicit baton schedule that switches threads between operations and at the hook sites inside graph_engine (adjacency-list read-modify-write windows, after the edge-record put, between the steps of delete_edge/delete_node/update_*/add_label/remove_label, after the validation phase and after every edge of batch_create_edges, between the items of batch_delete_*, after the validation phase of batch_update_nodes). Every fifth case is the sequential configuration (one thread, 6-28 operations); every twentieth case is the high-degree sequential configuration (one thread; a hub with 45-130 edges, half of the cases >= 100, to 0-110 other nodes, undirected share 0/5/30/100 %, self-loops, parallel edges, created one by one or by bulk calls, nodes by batch_create_nodes in half of the cases; then edge deletions, single or bulk deletion of the hub, further operations and a second delete of the hub), where delete_node and batch_create_nodes take their rayon branches. The oracle runs once, at quiescence. Non-trivial: at least one edge was created and, for >1 thread, at least one thread switch happened. Distinct: hash of (thread count, sequence of executed operation kinds with success/failure in execution order, number of switches capped at 12).".into()
     }
     fn components(&self) -> Value {
         json!({
-            "real": ["graph_engine::GraphEngine (create_node, create_edge, delete_edge, delete_node, update_node, update_edge, all_edges, all_nodes, edges_of, neighbors, out_degree, in_degree, degree, traverse, node_exists)", "tensor_store::TensorStore (in-memory, SlabRouter/MetadataSlab)"],
+            "real": ["graph_engine::GraphEngine (create_node, create_edge, delete_edge, delete_node, update_node, update_edge, batch_create_nodes, batch_create_edges, batch_delete_nodes, batch_delete_edges, batch_update_nodes, add_label, remove_label, all_edges, all_nodes, edges_of, neighbors, out_degree, in_degree, degree, traverse, node_exists)", "tensor_store::TensorStore (in-memory, SlabRouter/MetadataSlab)"],
             "simulated": ["thread interleaving: baton scheduler over real OS threads, switch points = operation boundaries + neumann_verif hook sites in graph_engine"],
+            "real_unscheduled": ["rayon worker threads inside delete_node (>= 100 edges) and batch_create_nodes (>= 100 nodes), reached only by the high-degree sequential cases: one client thread, the workers run without a simulation context and are joined before the call returns"],
             "stub": []
         })
     }
     fn assumptions(&self) -> Vec<String> {
         vec![
             "a TensorStore get/put/delete/scan call is atomic (no switch inside the store; the store's own concurrency is C11's subject)".into(),
-            "no unique edge/node constraints are defined (create_edge would hold batch_unique_lock across the hook sites) and node degree stays below PARALLEL_THRESHOLD=100 (the rayon path of delete_node is never entered)".into(),
+            "no unique edge/node constraints are defined (create_edge would hold batch_unique_lock across the hook sites) and, in cases with more than one thread, node degree stays below PARALLEL_THRESHOLD=100 (bulk calls of <= 4 items, <= 5 operations per thread), so rayon workers never run next to scheduled threads".into(),
+            "high-degree sequential cases: the order in which rayon workers process a node's edges is not controlled; it is assumed not to influence the results returned to the client nor the quiescent state (checked by the determinism re-run: the event log holds results and the verdict only)".into(),
+            "a bulk call is one client operation: its items are accounted with the interval of the whole call; a bulk call that returned an error is un-acknowledged as a whole (no statement is made about which of its items took effect)".into(),
             "whether a self-loop makes a node its own neighbour is not fixed by the statement: the node itself is ignored when neighbour sets are compared".into(),
             "a delete_node that returned an error is un-acknowledged: edges of that node created before it ended may be absent".into(),
         ]
